@@ -134,14 +134,14 @@ def run_check(chk, ctx):
     for mm in res.mismatches[:50]:
         broken.append({"kind": "correspondence", "name": mm.get("stream", "?"),
                        "detail": json.dumps({"model": mm.get("model"), "impl": mm.get("impl")})[:1200], "input": mm.get("input")})
-    # 6 directed search when something broke and no concrete failure is known yet ------------
-    if broken and not res.oracle_failures:
+    # 6 directed search when something broke and no concrete unlisted failure is known yet ----
+    known = C.load_known(prop)
+    if broken and not any(not any(chk.match_known(f, k) for k in known) for f in res.oracle_failures):
         try:
             chk.search(ctx, res, broken)
         except Exception as e:
             traceback.print_exc()
     # 7 verdict ---------------------------------------------------------------------------
-    known = C.load_known(prop)
     unlisted = []
     known_hit = {}
     for f in res.oracle_failures:
